@@ -419,7 +419,7 @@ def run_family(ctx, family, scenarios, harness_mode, harness_args, trace_module,
         p = run_harness(ctx, binp, harness_mode, harness_args, shards[i], tf)
         skip = 0
         restarts = 0
-        while p.returncode in (2, 3) and harness_mode in ("container", "conc"):
+        while p.returncode in (2, 3) and harness_mode in ("container", "conc", "graph"):
             restarts += 1
             if restarts > 3:
                 ctx.notes.append("%s shard %d: more than 3 crashed/hung scenarios, rest of the shard not run" % (family, i))
@@ -449,7 +449,7 @@ def run_family(ctx, family, scenarios, harness_mode, harness_args, trace_module,
             with open(tf, "a") as f, open(tf2) as g:
                 shutil.copyfileobj(g, f)
             os.remove(tf2)
-        if p.returncode != 0 and not (p.returncode in (2, 3) and harness_mode in ("container", "conc")):
+        if p.returncode != 0 and not (p.returncode in (2, 3) and harness_mode in ("container", "conc", "graph")):
             raise Inconclusive("harness failed rc=%d: %s" % (p.returncode, p.stderr[-2000:]))
         return tf
 
